@@ -157,9 +157,11 @@ def r3(ctx):
     rets = [r for r in returns_of(g.node)]
     ok = ss is not None and norm(ss) == "isinstance(spec, ModelSpec)" and any(isinstance(P.parent(r), ast.If) and norm(P.parent(r).test) == "should_simplify" and "_simplify()" in norm(r.value) for r in rets) \
         and any(norm(r.value) == "model_matrices" for r in rets)
+    # it must be decided on the caller's `spec`: either before the specs are wrapped, or with `spec` never rebound
     ssst = [st_ for n_, v_, st_ in assignments(g.node) if n_ == "should_simplify"]
     prep = [st_ for n_, v_, st_ in assignments(g.node) if n_ == "model_specs"]
-    ok = ok and bool(ssst) and bool(prep) and ssst[0].lineno < prep[0].lineno
+    rebinds = [st_ for n_, v_, st_ in assignments(g.node) if n_ == "spec"]
+    ok = ok and bool(ssst) and bool(prep) and (ssst[0].lineno < prep[0].lineno or all(r_.lineno < ssst[0].lineno for r_ in rebinds))
     ctx.check(ok, "C07.R3", "the result keeps the nested shape of the formula: only an unstructured input is unwrapped", g.where, ctx.construct(g, text="should_simplify"),
               f"should_simplify = `{norm(ss) if ss is not None else None}` (expected isinstance(spec, ModelSpec), decided before the specs are wrapped): a structured input with only a "
               f"root would come back as a bare matrix")
